@@ -141,6 +141,8 @@ pub enum RekeyKind {
     ManualI(u8),
     /// install manual key `id` for the responder->initiator direction
     ManualR(u8),
+    /// install manual key `id` for both directions in one call
+    ManualBoth(u8),
 }
 
 #[derive(Clone, Copy, Debug, Serialize, Deserialize, PartialEq)]
